@@ -69,8 +69,11 @@ func genSection(r *common.Rng, name string, rsize int, effMode string, secMode s
 	names := []string{}
 	for k := 0; k < nlab; k++ {
 		nm := fmt.Sprintf("lb%d", k)
+		if r.Chance(1, 4) {
+			nm = fmt.Sprintf("lb%d_%d", k-1, r.Intn(2)) // looks like a derived name of the previous label
+		}
 		if k == 0 {
-			nm = pick(r, []string{"_start", "main", "top", "lb0"})
+			nm = pick(r, []string{"_start", "main", "top", "lb0", "top_0", "main_1"})
 		}
 		at := r.Intn(n)
 		if k == 0 && r.Chance(3, 4) {
@@ -263,6 +266,8 @@ func GenCase(r *common.Rng) Case {
 	}
 	relay := ncp >= 2 && r.Chance(1, 2) // dataflow-shaped programs: what arrives on the inputs reaches the outputs
 	secs := []gsection{}
+	collide := r.Chance(1, 3)
+	collBase := pick(r, []string{"stage", "prog", "code", "main", "sec0"})
 	for k := 0; k < nsec; k++ {
 		sm := ""
 		if r.Chance(1, 3) {
@@ -273,14 +278,40 @@ func GenCase(r *common.Rng) Case {
 			eff = gmode
 		}
 		name := pick(r, []string{"prog", "code", "main", "sec"}) + strconv.Itoa(k)
+		if collide {
+			// names the tool itself would generate for the normalised copy of another section (`<name>_<n>`)
+			switch {
+			case k == 0 && nsec == 1:
+				name = collBase + "_0" // the plain name goes to a section no processor runs (below)
+			case k == 0:
+				name = collBase
+			case k == 1:
+				name = collBase + pick(r, []string{"_0", "_0", "_0", "_1"})
+			default:
+				name = secs[1].name + "_0"
+				if r.Bool() {
+					name = collBase + "_2"
+					if secs[1].name == collBase+"_1" {
+						name = collBase + "_0"
+					}
+				}
+			}
+		}
 		if relay && eff != "" {
 			secs = append(secs, genRelaySection(r, name, rsize, sm, k == 0))
 		} else {
 			secs = append(secs, genSection(r, name, rsize, eff, sm))
 		}
 	}
-	// processor names in any alphabetical relation to their source order (the tool numbers processors by name)
-	cpNames := []string{"cpu", "worker", "sink", "alpha", "zed", "m1"}
+	// a section with another program that no processor runs, under the plain name
+	var decoys []gsection
+	if collide && nsec == 1 {
+		dm := pick(r, []string{"async", "sync"})
+		decoys = append(decoys, genSection(r, collBase, rsize, dm, dm))
+	}
+	// processor names in any alphabetical relation to their source order (the tool numbers processors by name);
+	// some look like names the tool could derive from another one
+	cpNames := []string{"cpu", "worker", "sink", "alpha", "zed", "m1", "cpu_0", "zed_1"}
 	for i := len(cpNames) - 1; i > 0; i-- {
 		j := r.Intn(i + 1)
 		cpNames[i], cpNames[j] = cpNames[j], cpNames[i]
@@ -468,10 +499,21 @@ func GenCase(r *common.Rng) Case {
 	if metaFirst {
 		metas()
 	}
+	decoyFirst := r.Bool()
+	if decoyFirst {
+		for _, s := range decoys {
+			s.render(&b, r)
+		}
+	}
 	for _, s := range secs {
 		s.render(&b, r)
 		if r.Chance(1, 3) {
 			b.WriteString("\n")
+		}
+	}
+	if !decoyFirst {
+		for _, s := range decoys {
+			s.render(&b, r)
 		}
 	}
 	if !metaFirst {
